@@ -446,7 +446,11 @@ safe_call_function_pointer (funptr_t * funp, int num_arg)
   int64_t entry_eval_cost = eval_cost;	/* not modified after setjmp() */
 
   if (!save_context (&econ))
-    return 0;
+    {
+      /* too deep recursion: no call, but the arguments are consumed like in every other case */
+      pop_n_elems (num_arg);
+      return 0;
+    }
 
   if (!setjmp (econ.context))
     {
